@@ -250,7 +250,7 @@ end VueJsx
 /-! ### pair oracles: two runs of the implementation on related inputs -/
 namespace VueJsx
 
-def oraclePair (mode : String) (o : Opts) (env : Env) (a b : Node) : Verdict :=
+def oraclePair0 (mode : String) (o : Opts) (env : Env) (a b : Node) : Verdict :=
   let x := if mode == "c12" then canon (eraseHints (effectivePragma o env) a) else canon a
   let y := canon b
   match firstDiff x y [] with
@@ -763,4 +763,129 @@ def oracleC06 (o : Opts) (inN outN : Node) : Verdict :=
       .fail "unused-generated-binding" s!"{nm} is imported or declared but never used"
     | none => .ok
 
+end VueJsx
+
+/-! ### C11: evaluated once, in source order, slot content lazily -/
+namespace VueJsx
+
+/-- anything but a bare identifier or a literal -/
+def isNonTrivial (e : Node) : Bool :=
+  match e with
+  | .mk .ident _ _ => false
+  | .mk .str _ _ => false
+  | .mk .num _ _ => false
+  | .mk .bool _ _ => false
+  | .mk .null _ _ => false
+  | .mk .bigint _ _ => false
+  | .mk .regex _ _ => false
+  | .mk (.other "text") _ _ => false
+  | .mk (.other "undef") _ _ => false
+  | .mk (.other "Fragment") _ _ => false
+  | .mk (.other "builtin") _ _ => false
+  | .mk (.other "resolve") _ _ => false
+  | .mk (.other "resolveDir") _ _ => false
+  | .mk (.other "mods") _ _ => false
+  | _ => true
+
+mutual
+/-- what is evaluated, in order, when the expression that creates this vnode is evaluated (slot content excluded) -/
+partial def creationTrace (v : Node) : List Node :=
+  match v with
+  | .mk (.other "vnode") _ [tag, props, kids, _, _] =>
+    -- what is evaluated at creation is decided by the STRUCTURE: an array of children is evaluated eagerly,
+    -- slot functions are not
+    exprTrace tag ++ propsTrace props ++ kidsTrace true kids
+  | e => exprTrace e
+/-- a user expression: one event for the expression itself (nested vnodes inside it are created while it is evaluated) -/
+partial def exprTrace (e : Node) : List Node :=
+  match e with
+  | .mk (.other "vnode") _ _ => [S "vnode" [] []]      -- a nested element: created here; judged on its own pair
+  | e => if isNonTrivial e then [shallow e] else []
+partial def propsTrace (props : Node) : List Node :=
+  props.kids.flatMap fun item =>
+    match item with
+    | .mk (.other "seg") _ entries =>
+      entries.flatMap fun en =>
+        match en with
+        | .mk (.other "p") _ [.mk (.other "cat") _ parts] => parts.flatMap exprTrace
+        | .mk (.other "p") _ [v] => exprTrace v
+        | .mk (.other "pc") _ [k, v] => exprTrace k ++ exprTrace v
+        | _ => []
+    | .mk _ _ [e] => exprTrace e
+    | _ => []
+partial def kidsTrace (isElem : Bool) (kids : Node) : List Node :=
+  match kids with
+  | .mk (.other "kids") _ items => items.flatMap fun it => exprTrace (argExpr it)
+  | .mk (.other "slotcond") _ (x :: _) => exprTrace x        -- a sole call child: evaluated once, at creation
+  | .mk (.other "opaque") _ [e] => exprTrace e
+  | .mk (.other "slots") _ entries =>
+    -- slot functions are not called at creation; a slots OBJECT's own entries other than functions are evaluated
+    entries.flatMap fun en =>
+      match en with
+      | .mk (.other "spread") _ [e] => exprTrace e
+      | _ => []
+  | _ => let _ := isElem; []
+end
+
+/-- the content of the default slot: evaluated each time the slot function is called -/
+def slotTrace (v : Node) : List Node :=
+  (kidItems (vKids v)).flatMap fun it => exprTrace (argExpr it)
+
+def oracleC11 (o : Opts) (env : Env) (inN outN : Node) : Verdict :=
+  if o.resolveType then .skip "resolveType" else
+  let sv := semView o env (effectivePragma o env) inN outN
+  let ps := sv.pairs.filter inDom
+  match ps.find? (fun p => !(creationTrace p.d == creationTrace p.e)) with
+  | some p =>
+    let key := if !(collect (fun x => x.kind == .other "captured") p.e).isEmpty then "creation-trace/captured-temporary"
+      else match ["vmodel-computed-arg", "vmodel-arg-on-element"].find? (fun f => p.d.atoms.contains f) with
+        | some f => "creation-trace/" ++ f
+        | none => "creation-trace"
+    .fail key s!"expected {(creationTrace p.d).map showN} got {(creationTrace p.e).map showN}"
+  | none =>
+    match ps.find? (fun p => vIsComponent p.d && !(slotTrace p.d == slotTrace p.e)) with
+    | some p =>
+      .fail (if !(collect (fun x => x.kind == .other "captured") p.e).isEmpty then "slot-trace/captured-temporary" else "slot-trace")
+        s!"default slot: expected {(slotTrace p.d).map showN} got {(slotTrace p.e).map showN}"
+    | none =>
+      -- directive values and arguments: evaluated once each (their order relative to the props is not specified)
+      match ps.find? (fun p => !(shallow (vDirs p.d) == shallow (vDirs p.e))) with
+      | some p => .fail "directive-expressions" s!"expected {showN (vDirs p.d)} got {showN (vDirs p.e)}"
+      | none =>
+        if sv.pairs.length != sv.dCount && !sv.anyDropped then .fail "unpaired-vnode" "a JSX element has no vnode at its position" else .ok
+
+/-! ### C10: a JSX statement's lowering does not depend on unrelated code around it -/
+
+def moduleItems (m : Node) : List Node :=
+  match m with
+  | .mk .module _ (.mk .list _ items :: _) => items
+  | _ => []
+
+/-- `mode` = "c10:<i>:<j>": item i of output A (the statement alone) must equal item j of output B (with code around it),
+    after stripping inserted statements and renaming generated identifiers by first occurrence within the statement -/
+def oracleC10 (mode : String) (a b : Node) : Verdict :=
+  match mode.splitOn ":" with
+  | [_, si, sj] =>
+    let ia := (moduleItems (stripInserted a))[si.toNat!]?
+    let ib := (moduleItems (stripInserted b))[sj.toNat!]?
+    match ia, ib with
+    | some x, some y =>
+      -- the spelling of a temporary (`_slot`, `_slot2`, ...) is not part of the property: identity is the binding
+      let anon (n : Node) : Node := post (fun z => match z with
+        | .mk .ident (_ :: bnd :: r) ks => if bnd.startsWith "G" then .mk .ident ("_" :: bnd :: r) ks else z
+        | z => z) n
+      match firstDiff (anon (canon x)) (anon (canon y)) [] with
+      | none => .ok
+      | some (path, p, q) =>
+        let caps := (capturedRoles b).map (·.1)
+        let cap := !(collect (fun n => match n with | .mk .ident (_ :: bnd :: _) _ => caps.contains bnd | _ => false) y).isEmpty
+        .fail (if cap then "lowering-depends-on-context/captured-temporary" else "lowering-depends-on-context") s!"at {path}: alone {showN p}, in context {showN q}"
+    | _, _ => .fail "statement-not-found" mode
+  | _ => .skip "bad-mode"
+
+end VueJsx
+
+namespace VueJsx
+def oraclePair (mode : String) (o : Opts) (env : Env) (a b : Node) : Verdict :=
+  if mode.startsWith "c10" then oracleC10 mode a b else oraclePair0 mode o env a b
 end VueJsx
